@@ -4,7 +4,7 @@
    validation: the same questions to every materialisation of a generated tree). *)
 From Coq Require Import List String NArith Bool.
 From Coq Require Import Permutation.
-From AM Require Import Rust.Ast Gen.Archive Ref.Tree Proofs.Tree Ref.Archive Proofs.Archive Tie.Archive Gen.Private Tie.Graph.
+From AM Require Import Rust.Ast Gen.Archive Ref.Tree Proofs.Tree Ref.Archive Proofs.Archive Tie.Archive Gen.Private Tie.Graph Gen.Embed Tie.Embed.
 Import ListNotations.
 
 Theorem C04_listing_is_exactly_the_direct_children : forall t d l,
@@ -79,3 +79,14 @@ Proof. exact path_of_entry_as_specified. Qed.
 
 Theorem C04_code_parent_id : parent_id_wf DirEntry_parent_id = true.
 Proof. exact parent_id_as_modelled. Qed.
+
+(* the embed! macro fills the tables of an Embedded source as modelled: one row per file, one listing
+   per directory, ordered for the binary searches *)
+Theorem C04_code_embed_macro :
+  fn_body Content_push_file = expected_Content_push_file /\
+  fn_body Content_push_dir = expected_Content_push_dir /\
+  fn_body Content_sort = expected_Content_sort /\
+  fn_body embed_read_dir = expected_embed_read_dir /\
+  fn_body Id_push = expected_Id_push /\
+  fn_body embed_extension_of = expected_embed_extension_of.
+Proof. exact embed_macro_as_modelled. Qed.
